@@ -96,13 +96,15 @@ def enumerate_ops(m, mi):
                     if 0 <= i < ln: ops += [(mi, n, 'setkey', i), (mi, n, 'delkey', i), (mi, n, 'popkey', i)]
                 ops += [(mi, n, 'setkey-new', 0), (mi, n, 'delkey-missing', 0)]
                 continue
-            if n.endswith('_with_comments'): ops += [(mi, n, 'ins-comment', 0), (mi, n, 'ins-comment', ln)]
+            if n.endswith('_with_comments'): ops += [(mi, n, 'ins-comment', 0), (mi, n, 'ins-comment', ln), (mi, n, 'unclaim-foreign', 0), (mi, n, 'claim-foreign', 0)]
             for i in sorted({0, 1, ln - 1, ln, -1}):
                 if -ln <= i <= ln: ops.append((mi, n, 'ins', i))
                 if -ln <= i < ln:
                     ops += [(mi, n, 'pop', i), (mi, n, 'setitem', i)]
             ops += [(mi, n, 'append', 0), (mi, n, 'extend2', 0), (mi, n, 'clear', 0), (mi, n, 'del-slice', (0, 2)), (mi, n, 'ins2-front', 0),
                     (mi, n, 'slice-set', (0, 1)), (mi, n, 'slice-set', (1, 1)), (mi, n, 'pop', ln), (mi, n, 'setitem', ln), (mi, n, 'ins-attached', 0)]
+            if ln >= 2: ops += [(mi, n, 'step-set', (None, None, 2)), (mi, n, 'step-set', (None, None, -1)), (mi, n, 'step-set', (ln - 1, 0, -2)), (mi, n, 'step-set', (1, None, 2)),
+                                (mi, n, 'step-del', (None, None, 2)), (mi, n, 'step-del', (None, None, -2)), (mi, n, 'step-set-badlen', (None, None, 2))]
             if n.startswith('raw_'): ops += [(mi, n, 'root-ins', 0), (mi, n, 'root-append', 0), (mi, n, 'root-setitem', 0), (mi, n, 'root-slice', 0), (mi, n, 'root-extend', 0)]
     return ops
 
@@ -178,6 +180,29 @@ def apply_op(f, op):
         if action == 'setkey': view[key] = mapping_value(view, m, n, key); return m, ('key', n, key)
         if action == 'delkey': del view[key]; return m, ('key', n, key)
         view.pop(key); return m, ('key', n, key)
+    if action in ('unclaim-foreign', 'claim-foreign'):
+        # a batch that names a comment of ANOTHER document next to this field's own comments: must be refused as a whole (C19)
+        other = parse('\n; foreign\n\n2000-01-01 open Assets:Zz\n')
+        foreign = [t for t in other.token_store if isinstance(t, models.BlockComment)][0]
+        def state():
+            return (tree.store_text(f.token_store), [(id(t), t.claimed) for t in f.token_store if isinstance(t, models.BlockComment)], [id(x) for x in view], [id(t) for t in f.token_store])
+        if action == 'unclaim-foreign':
+            own = [x for x in view if isinstance(x, models.BlockComment)]
+            if not own: raise Refused('no own comment entry')
+            call = lambda: view.unclaim_interleaving_comments(own + [foreign])
+        else:
+            released = list(view.unclaim_interleaving_comments())
+            if not released: raise Refused('no own comment entry')
+            call = lambda: view.claim_interleaving_comments(released + [foreign])
+        before = state()
+        try: call()
+        except ValueError:
+            after = state()
+            if after != before:
+                what = [n_ for n_, a_, b_ in zip(('text', 'claimed flags', 'entries', 'token order'), before, after) if a_ != b_]
+                raise AssertionError(f'C19: {action[:-8]}_interleaving_comments refused a batch naming a foreign comment, but changed {what}')
+            raise Refused('refused cleanly')
+        raise AssertionError('C19: a batch naming a comment of another document was accepted')
     if action == 'ins-comment':
         view.insert(arg, models.BlockComment.from_value('inserted', indent='    ' if type(m).__name__ != 'File' else '')); return m, ('list', n)
     if action == 'ins': view.insert(arg, item()); return m, ('list', n)
@@ -199,6 +224,13 @@ def apply_op(f, op):
             view[0] = f
         elif action == 'root-slice': view[0:1] = [f]
         raise AssertionError('C19: the root of the same document was accepted as an item')
+    if action in ('step-set', 'step-del', 'step-set-badlen'):
+        sl = slice(*arg); cnt = len(range(len(view))[sl])
+        if action == 'step-del': del view[sl]; return m, ('list', n)
+        if action == 'step-set-badlen':
+            view[sl] = [item(1 + i) for i in range(cnt + 1)]
+            raise AssertionError('C19: an extended slice was assigned a sequence of the wrong length')
+        view[sl] = [item(1 + i) for i in range(cnt)]; return m, ('list', n, max(cnt, 1))
     if action == 'ins-attached':
         dm = donor_model(cls.__name__, 1)
         dview = getattr(dm, n, None) if dm is not None else None
@@ -256,7 +288,8 @@ def snapshot(f, m):
     a, b = idx[id(m.first_token)], idx[id(m.last_token)]
     kids = [(c, tree.model_text(c)) for c in tree.real_children(m) if not isinstance(c, base.RawTokenModel) or type(c).__name__ not in tree.TRIVIA]
     return dict(text=tree.store_text(store), before=toks[:a], after=toks[b + 1:], pre=''.join(t.raw_text for t in toks[:a]), post=''.join(t.raw_text for t in toks[b + 1:]),
-                kids=kids, structure=tree.flat_structure(f), all=toks)
+                kids=kids, structure=tree.flat_structure(f), all=toks, claimed=[(id(t), t.claimed) for t in toks if isinstance(t, models.BlockComment)],
+                entries=[(type(x).__name__, n_, [id(e) for e in getattr(x, n_)]) for x in tree_models(f) for n_ in dir(type(x)) if n_.endswith('_with_comments')])
 
 
 def check_after(prop, f, m, snap, opinfo, changed_child_ids):
@@ -291,7 +324,7 @@ def check_after(prop, f, m, snap, opinfo, changed_child_ids):
             still = [x for x in tree.real_children(m) if x is c]
             if still and tree.model_text(c) != t: diff.append(f'{type(c).__name__} {t!r} -> {tree.model_text(c)!r}')
         allowed = 1 if opinfo[0] in ('val', 'list', 'key') and not changed_child_ids else 0
-        if opinfo[0] == 'list' and not changed_child_ids: allowed = 1
+        if opinfo[0] == 'list' and not changed_child_ids: allowed = opinfo[2] if len(opinfo) > 2 else 1      # value-level views update their items in place: one per assigned position
         if len(diff) > allowed: return f'C03: sibling text changed: {diff[:3]}'
     if prop == 'C06':
         try:
@@ -366,6 +399,9 @@ def run_case(prop, docname, ops):
                 v = tree.valid(f)
                 if v: return f'step {step} {op}: refused with {type(e).__name__} but the tree is no longer valid: {v}', 'fail'
                 if tree.flat_structure(f) != snap['structure']: return f'step {step} {op}: refused with {type(e).__name__} but the tree changed', 'fail'
+                if [(id(t), t.claimed) for t in f.token_store if isinstance(t, models.BlockComment)] != snap['claimed']: return f'step {step} {op}: refused with {type(e).__name__} but the claimed flags of comments changed', 'fail'
+                if [(type(x).__name__, n_, [id(e_) for e_ in getattr(x, n_)]) for x in tree_models(f) for n_ in dir(type(x)) if n_.endswith('_with_comments')] != snap['entries']:
+                    return f'step {step} {op}: refused with {type(e).__name__} but the entries of a repeated field changed', 'fail'
             return None, 'refused'
         changed = {id(c) for c in tree.real_children(m)} ^ old_children
         msg = check_after(prop, f, m, snap, info, changed | {id(c) for c in tree.real_children(m) if id(c) not in old_children})
@@ -398,7 +434,10 @@ def run(prop, tier, seed):
         docs = [d for d in docs if '+lead' not in d[0]]
     cases = list(all_single_ops(docs))
     if tier == 'quick' and len(cases) > 4500:
-        rnd.shuffle(cases); cases = cases[:4500]
+        always = [c for c in cases if c[1][2] in ('unclaim-foreign', 'claim-foreign', 'set-root', 'root-ins', 'root-setitem', 'root-slice')      # rare refusal shapes: never sampled away
+                  or (c[1][2] == 'step-set' and c[0] in ('mixed-tags-links', 'txn2', 'meta-comments-postings', 'standalone-comments'))]
+        rest = [c for c in cases if c not in set(always)]
+        rnd.shuffle(rest); cases = always + rest[:max(0, 4500 - len(always))]
     for name, op in cases:
         if not rep.mine((name, op)): continue
         try:
